@@ -34,6 +34,8 @@ Inductive source := SliceIter | Enumerate (s : source).                 (* how t
 Inductive arg := AParam | AAddLit (a : arg) (k : N) | ALit (k : N).     (* argument of nth_back: the parameter n, e + lit, lit *)
 Inductive call :=                                                       (* the std method called on `self.iter` *)
   | CNext | CNextBack | CNthBack (a : arg) | CSizeHint
+  | CNth (a : arg)                                                      (* self.iter.nth(a) *)
+  | CFieldLen                                                           (* self.iter.len(): the remaining length of the field *)
   | CConstHint (lo : N) (hi : option N)                                 (* a literal tuple `(lo, None | Some(hi))` *)
   | CLenDefault.                                                        (* no body: ExactSizeIterator's default `len` *)
 Inductive eterm :=                                                      (* body of iter_element over its tuple parameter *)
@@ -41,6 +43,8 @@ Inductive eterm :=                                                      (* body 
   | EDeref (e : eterm)                                                  (* *e *)
   | EAddLit (e : eterm) (k : N)                                         (* e + lit *)
   | EKeyOrUnreachable (e : eterm)                                       (* K::try_from_usize(e).unwrap_or_else(|| unreachable!()) *)
+  | EMatchKey (e body : eterm)                                          (* match K::try_from_usize(e) { Some(k) => body, None => unreachable!() } *)
+  | EKeyVar                                                             (* the k bound by the enclosing EMatchKey *)
   | EPair (e1 e2 : eterm).
 Inductive post := PNone | PMapIterElement | PCopied.                    (* nothing / .map(iter_element) / .copied() *)
 Definition method := (string * (call * post))%type.
@@ -65,6 +69,12 @@ Fixpoint state_at (s : source) (lo hi : N) : state :=
 
 Fixpoint len_of (st : state) : N :=
   match st with StSlice lo hi => hi - lo | StEnum i _ => len_of i end.
+Fixpoint window_of (st : state) : N * N :=
+  match st with StSlice lo hi => (lo, hi) | StEnum i _ => window_of i end.
+(* same window, and the same state altogether unless the window is empty (Enumerate::nth leaves `count` alone when the inner
+   iterator is exhausted by it: `let a = self.iter.nth(n)?;` -- an exhausted window never yields, so count is dead then) *)
+Definition st_agree (s1 s2 : state) : Prop :=
+  window_of s1 = window_of s2 /\ (fst (window_of s1) <? snd (window_of s1) = true -> s1 = s2).
 Fixpoint hint_of (st : state) : N * option N :=
   match st with StSlice lo hi => (hi - lo, Some (hi - lo)) | StEnum i _ => hint_of i end.
 
@@ -116,25 +126,45 @@ Section Std.
         end
     end.
 
+  (* slice::Iter::nth(n): n < len: yields &l[lo+n], lo := lo+n+1; else None and the iterator is exhausted (lo := hi).
+     Enumerate::nth(n): let a = self.iter.nth(n)?; let i = self.count + n; self.count = i + 1; Some((i, a)) *)
+  Fixpoint raw_nth (n : N) (st : state) : option (state * option (yv A)) :=
+    match st with
+    | StSlice lo hi =>
+        if n <? hi - lo then match nth_error l (N.to_nat (lo + n)) with
+                             | Some a => Some (StSlice (lo + n + 1) hi, Some (YRef a)) | None => None end
+        else Some (StSlice hi hi, None)
+    | StEnum i c =>
+        match raw_nth n i with
+        | Some (i', Some x) => Some (StEnum i' (c + n + 1), Some (YPair (YNum (c + n)) x))
+        | Some (i', None) => Some (StEnum i' c, None)
+        | None => None
+        end
+    end.
+
   Fixpoint eval_arg (a : arg) (n : N) : N :=
     match a with AParam => n | AAddLit a' k => eval_arg a' n + k | ALit k => k end.
 
   (* iter_element applied to [v] *)
-  Fixpoint eval (e : eterm) (v : yv A) : ev A :=
+  Fixpoint eval (e : eterm) (v : yv A) (kenv : option N) : ev A :=
     match e with
+    | EMatchKey e' body => match eval e' v kenv with
+                           | EvOk (YNum n) => match try_key n with Some k => eval body v (Some k) | None => EvPanic end
+                           | EvOk _ => EvStuck | r => r end
+    | EKeyVar => match kenv with Some k => EvOk (YKey k) | None => EvStuck end
     | EFst => match v with YPair x _ => EvOk x | _ => EvStuck end
     | ESnd => match v with YPair _ y => EvOk y | _ => EvStuck end
-    | EDeref e' => match eval e' v with
+    | EDeref e' => match eval e' v kenv with
                    | EvOk (YRef a) => EvOk (YVal a)
                    | EvOk _ => EvStuck | r => r end
-    | EAddLit e' k => match eval e' v with
+    | EAddLit e' k => match eval e' v kenv with
                       | EvOk (YNum n) => EvOk (YNum (n + k))
                       | EvOk _ => EvStuck | r => r end
-    | EKeyOrUnreachable e' => match eval e' v with
+    | EKeyOrUnreachable e' => match eval e' v kenv with
                               | EvOk (YNum n) => match try_key n with Some k => EvOk (YKey k) | None => EvPanic end
                               | EvOk _ => EvStuck | r => r end
-    | EPair e1 e2 => match eval e1 v with
-                     | EvOk x => match eval e2 v with EvOk y => EvOk (YPair x y) | r => r end
+    | EPair e1 e2 => match eval e1 v kenv with
+                     | EvOk x => match eval e2 v kenv with EvOk y => EvOk (YPair x y) | r => r end
                      | r => r end
     end.
 
@@ -142,7 +172,7 @@ Section Std.
     match p, o with
     | PNone, _ => ROpt o
     | _, None => ROpt None
-    | PMapIterElement, Some v => match eval elem v with EvOk w => ROpt (Some w) | EvPanic => RPanic | EvStuck => RStuck end
+    | PMapIterElement, Some v => match eval elem v None with EvOk w => ROpt (Some w) | EvPanic => RPanic | EvStuck => RStuck end
     | PCopied, Some (YRef a) => ROpt (Some (YVal a))
     | PCopied, Some _ => RStuck
     end.
@@ -156,6 +186,8 @@ Section Std.
     | CNext => fin elem p st (raw_next st)
     | CNextBack => fin elem p st (raw_next_back st)
     | CNthBack a => fin elem p st (raw_nth_back (eval_arg a n) st)
+    | CNth a => fin elem p st (raw_nth (eval_arg a n) st)
+    | CFieldLen => match p with PNone => (st, RLen (len_of st)) | _ => (st, RStuck) end
     | CSizeHint => match p with PNone => (st, RHint (fst (hint_of st)) (snd (hint_of st))) | _ => (st, RStuck) end
     | CConstHint lo hi => match p with PNone => (st, RHint lo hi) | _ => (st, RStuck) end
     | CLenDefault => (st, RStuck)
@@ -190,3 +222,43 @@ Section Std.
     | None => (st, RStuck)
     end.
 End Std.
+
+(* ---------------- the STD DEFAULTS of Iterator::nth / count / last, from the type's own `next` ----------------
+   nth(n)   self.advance_by(n).ok()?; self.next()      advance_by: n calls of next(), stopping at the first None
+   count    self.fold(0, |c, _| c + 1)                  next() until None
+   last     self.fold(None, |_, x| Some(x))             next() until None
+   [fuel] bounds the number of calls (the iterators here are finite: fuel = remaining length + 1 suffices; running out is STUCK).
+   A panic (or a stuck step) of next propagates. *)
+Section Defaults.
+  Context {A : Type}.
+  Variable nxt : state -> state * result A.
+
+  Fixpoint default_nth (k : nat) (st : state) : state * result A :=
+    match k with
+    | O => nxt st
+    | S k' => match nxt st with
+              | (st', ROpt (Some _)) => default_nth k' st'
+              | r => r
+              end
+    end.
+
+  Fixpoint default_count (fuel : nat) (st : state) (acc : N) : result A :=
+    match fuel with
+    | O => RStuck
+    | S f => match nxt st with
+             | (st', ROpt (Some _)) => default_count f st' (acc + 1)
+             | (_, ROpt None) => RLen acc
+             | (_, r) => r
+             end
+    end.
+
+  Fixpoint default_last (fuel : nat) (st : state) (acc : option (yv A)) : result A :=
+    match fuel with
+    | O => RStuck
+    | S f => match nxt st with
+             | (st', ROpt (Some x)) => default_last f st' (Some x)
+             | (_, ROpt None) => ROpt acc
+             | (_, r) => r
+             end
+    end.
+End Defaults.
